@@ -544,6 +544,23 @@ class OpsMixin(object):
             return ListV(out, "list" if kind == "list" else kind)
         if g.ifs:
             self.err(node, "filter in symbolic comprehension")
+        if isinstance(seq, SeqV) and seq.kind == "guarded":
+            # items present on some paths only: the comprehension of them is present on the same paths
+            inner = self._comp_over(self.as_iterable(seq.part, node), node, g, env, kind)
+            return SeqV("guarded", conds=list(seq.conds), part=inner)
+        if isinstance(seq, SeqV) and seq.kind == "rowstrings":
+            # one string per row of a chunked sequence: the same rows, each string mapped
+            self.assign(g.target, StrV(seq.node), sub)
+            self.event_stack.append([])
+            try:
+                elt = self.eval(node.elt, sub)
+            finally:
+                evs = self.event_stack.pop()
+            if evs:
+                self.log_event(("loop", evs))
+            if not is_strlike(elt):
+                self.err(node, "comprehension over row strings does not build strings")
+            return SeqV("rowstrings", spec=seq.spec, node=to_node(elt))
         var, lo, hi, elemv, seqv = self.loop_binder(seq, node)
         self.assign(g.target, elemv, sub)
         self.event_stack.append([])
@@ -719,6 +736,13 @@ class OpsMixin(object):
                 return True
         return False
 
+    def _arity_error(self, fi, msg, node):
+        # a call made by a check itself (no call site in the package) into a private helper with a call shape the helper
+        # no longer has says nothing about the package: the check is out of date, not the code
+        if node is None and fi.name.startswith("_") and not fi.name.startswith("__"):
+            raise AnalysisError("the check calls the private helper %s with arguments it does not take (%s)" % (fi.fq, msg))
+        raise RaiseSignal(ExcV(ExtV("builtins.TypeError"), [Const(msg)]), node)
+
     def bind_params(self, fv, args, kwargs, node):
         fi = fv.fi
         a = fi.node.args
@@ -753,7 +777,7 @@ class OpsMixin(object):
             else:
                 di = i - (len(params) - ndef)
                 if di < 0:
-                    raise RaiseSignal(ExcV(ExtV("builtins.TypeError"), [Const("%s() missing required argument %r" % (fi.qualname, p))]), node)
+                    self._arity_error(fi, "%s() missing required argument %r" % (fi.qualname, p), node)
                 denv = Env(parent=fv.closure, module=fi.module, label=fi.fq)
                 env.vars[p] = self.eval(defaults[di], denv)
         extra = pos[len(params):]
@@ -763,7 +787,7 @@ class OpsMixin(object):
             else:
                 env.vars[a.vararg.arg] = ListV(extra, "tuple")
         elif extra:
-            raise RaiseSignal(ExcV(ExtV("builtins.TypeError"), [Const("%s() takes fewer positional arguments" % fi.qualname)]), node)
+            self._arity_error(fi, "%s() takes fewer positional arguments" % fi.qualname, node)
         for ko, kd in zip(a.kwonlyargs, a.kw_defaults):
             if ko.arg in kwargs:
                 env.vars[ko.arg] = kwargs.pop(ko.arg)
@@ -777,7 +801,7 @@ class OpsMixin(object):
                 d.items[Const(k).key()] = (Const(k), v)
             env.vars[a.kwarg.arg] = d
         elif kwargs:
-            raise RaiseSignal(ExcV(ExtV("builtins.TypeError"), [Const("%s() got unexpected keyword arguments %s" % (fi.qualname, sorted(kwargs)))]), node)
+            self._arity_error(fi, "%s() got unexpected keyword arguments %s" % (fi.qualname, sorted(kwargs)), node)
         return env
 
     def call_function(self, fv, args, kwargs, node):
